@@ -36,6 +36,9 @@ def explore(ctx):
             lines.append(G.shutdown_sweep("w%d" % pos, pos))
         for pos in range(1, 8 if tier == "quick" else 24):
             lines.append(G.shutdown_sweep("wd%d" % pos, pos, delays=150))
+        for what in ("disconnect", "force", "cancel"):
+            for pos in range(1, 40, 1 if tier != "quick" else 2):
+                lines.append(G.env_sweep("e%s%d" % (what[0], pos), pos, what))
         ops = ["dialok", "dialfail", "finalize", "close"]
         depth = {"quick": 5, "thorough": 7, "search": 6}[tier]
         k = 0
